@@ -69,9 +69,11 @@ def int_dom(nm, kind, c=None):
         if nm in BITW:
             return nonneg_bits(x, n) & nonneg_bits(y, n)
         if nm == "rshift":
-            return nonneg_bits(x, n) & nonneg_bits(y, n)
+            # shift counts below the bit length (a secret count is served by dividing by 2^count, which must itself
+            # pass the n-bit range checks of the division gadget)
+            return nonneg_bits(x, n) & (y >= 0) & (y < n)
         if nm == "lshift":
-            return fits(x, n - 1) & nonneg_bits(y, n)
+            return fits(x, n - 1) & (y >= 0) & (y < n)
         if nm == "pow":
             return fits(x, n - 1) & nonneg_bits(y, n)
         raise KeyError(nm)
